@@ -1,4 +1,8 @@
+import RactorModel.Lemmas.GenAuth
 import RactorModel.Lemmas.Session
+import RactorModel.Lemmas.MultiSession
+import RactorModel.Lemmas.Transitive
+import RactorModel.Extracted
 
 /-!
 # C17 — nothing from a peer takes effect before authentication
@@ -337,6 +341,263 @@ theorem unauthenticated_session_is_inert (cfg : Cfg C) (inputs : List (Env × In
 
 end
 
+/-! ## round 4: several sessions with the same peer — the reflection finding (F11)
+
+`wrong_cookie_never_authenticated` above is about ONE session and assumes (`hpeer`) that the peer
+computed every digest it sends itself. `Model/MultiSession.lean` drops both restrictions: any
+number of inbound and outbound sessions of one node, opened at any time, inputs interleaved in
+any order, and a peer that may also COPY any digest the node has sent on any session (`legal`).
+-/
+
+section
+open Multi
+variable {C D : Type} [DecidableEq D] (H : C → Nat → D)
+
+/-- (what exactly a cookie-less peer needs) For every run of the multi-session node against a peer
+that does not know the cookie (its digests are copied from the node's frames or computed with
+another cookie that `H` separates from the real one): whenever a step authenticates a session,
+the digest presented in that step is one the NODE ITSELF had put on the wire before, on some
+session. The only way in without the cookie is reflection. -/
+theorem authentication_only_by_cookie_or_reflection (cookie cookie' : C)
+    (hsep : ∀ c c', H cookie' c' ≠ H cookie c)
+    (pre post : List (Op D)) (k : Nat) (env : Env) (i : In D)
+    (hl : legal H cookie' (Multi.empty cookie : Node C D) (pre ++ .input k env i :: post))
+    (cfg : Cfg C) (st : SState D)
+    (hk : (nodeAfter H (Multi.empty cookie : Node C D) pre).sessions[k]? = some (cfg, st))
+    (hno : st.auth.isOk = false) (hok : (handle H cfg st env i).1.auth.isOk = true) :
+    ∃ d, digestOf i = some d ∧ d ∈ (nodeAfter H (Multi.empty cookie : Node C D) pre).seen := by
+  have hinv := inv_nodeAfter H pre _ (empty_inv H cookie)
+  have hm : (cfg, st) ∈ (nodeAfter H (Multi.empty cookie : Node C D) pre).sessions := List.mem_of_getElem? hk
+  obtain ⟨hc, hw⟩ := hinv _ hm
+  rw [nodeAfter_cookie] at hc hw
+  have hc' : cfg.cookie = cookie := hc
+  have hp := (handle_facts H cfg st env i).okNeeds (by rw [hc']; exact hw) hno hok
+  obtain ⟨d, c, hd, hdc⟩ := presents_digest H hp
+  have hl' := (legal_split H cookie' pre _ _ post hl).1 d hd
+  rcases hl' with h | ⟨c', hc2⟩
+  · exact ⟨d, hd, h⟩
+  · exact absurd (by rw [← hc2, hdc, hc']) (hsep c c')
+
+/-- (`_partial`: no relay ⇒ no authentication) Under the explicit hypothesis `noServerChallenge ops`
+— the node is never asked to answer a peer-chosen challenge, i.e. no input of the run is a
+`ServerChallenge` frame (the peer has inbound connections only, or the node dials trusted
+addresses only) — a peer without the cookie is never authenticated on ANY of the sessions, causes
+no gated effect anywhere in the run and never sees a single digest of the real cookie, however
+many sessions it opens, however it interleaves them and whatever it replays. -/
+theorem no_relay_never_authenticated_partial (cookie cookie' : C)
+    (hsep : ∀ c c', H cookie' c' ≠ H cookie c) (ops : List (Op D)) :
+    ∀ (n : Node C D), n.cookie = cookie → Quiet H n →
+      legal H cookie' n ops → noServerChallenge ops = true →
+      ∀ ne ∈ Multi.run H n ops,
+        (∀ e ∈ ne.2, e.gated = false) ∧ (∀ p ∈ ne.1.sessions, p.2.auth.isOk = false) ∧ ne.1.seen = [] := by
+  induction ops with
+  | nil => intro n _ _ _ _ ne h; simp [Multi.run] at h
+  | cons op rest ih =>
+    intro n hc hq hl hns ne hne
+    have hns1 : noServerChallenge [op] = true ∧ noServerChallenge rest = true := by
+      cases op with
+      | «open» a b c d e => simpa [noServerChallenge] using hns
+      | input k env i => simpa [noServerChallenge] using hns
+      | deauth ks => simpa [noServerChallenge] using hns
+    have hs := quiet_step H cookie' n op (by rw [hc]; exact hsep) hq ⟨hl.1, trivial⟩ hns1.1
+    simp only [Multi.run, List.mem_cons] at hne
+    rcases hne with rfl | hne
+    · exact ⟨hs.2, hs.1.2.1, hs.1.2.2⟩
+    · exact ih _ (by rw [step_cookie, hc]) hs.1 hl.2 hns1.2 ne hne
+
+omit [DecidableEq D] in
+/-- the fresh node is `Quiet` -/
+theorem empty_quiet (cookie : C) : Quiet H (Multi.empty cookie : Node C D) :=
+  ⟨empty_inv H cookie, by intro p hp; simp [Multi.empty] at hp, rfl⟩
+
+/-- (clause "sessions are listed only after the handshake", NodeServer side) `GetSessions` answers
+from `authenticated_sessions`; a session enters that set only through the `ConnectionAuthenticated`
+cast, which the session sends only in the step that completes its handshake (`gate`), and leaves it
+whenever the `NodeServer` says so (election losers, cleanup). Hence, for every run of the node —
+any number of sessions, any interleaving, any peer —: every session `GetSessions` lists exists and
+has completed the challenge handshake. -/
+theorem listed_sessions_completed_the_handshake (cookie : C) (ops : List (Op D)) :
+    ∀ k ∈ getSessions (nodeAfter H (Multi.empty cookie : Node C D) ops),
+      ∃ cfg st, (nodeAfter H (Multi.empty cookie : Node C D) ops).sessions[k]? = some (cfg, st) ∧
+        st.auth.isOk = true :=
+  listedOk_nodeAfter H ops _ (by intro k hk; simp [Multi.empty] at hk)
+
+end
+
+/-! ### authentication frames AFTER authentication
+
+`auth_violation_stops_session` needs `hno : st.auth.isOk = false`. What the code does with an
+authentication frame on an ALREADY authenticated session (`handle_auth`: `if state.auth.is_ok()
+{ return; }`, node_session.rs) is the complement: nothing — no effect, no state change, and in
+particular the session is NOT closed. Read literally ("any … out-of-order … authentication message
+closes the session") this is a deviation; it is not counted as a violation of C17 because the
+clause protects the way INTO the authenticated state ("… and it can never become authenticated
+afterwards") and such a frame has no effect whatsoever. -/
+
+section
+variable {C D : Type} [DecidableEq D] (H : C → Nat → D)
+
+/-- (what the code does) On a live authenticated session every authentication frame — of any kind,
+with any digest — is ignored: same state, no effect; the session stays up and authenticated. -/
+theorem auth_frame_after_authentication_is_ignored (cfg : Cfg C) (st : SState D) (env : Env) (m : Msg D)
+    (hlive : st.stopped = false) (hself : selfConnection cfg st = false) (hok : st.auth.isOk = true) :
+    handle H cfg st env (.frame (.auth m)) = (st, []) := by
+  simp [handle, hlive, hself, onAuthFrame, handleAuth, hok]
+
+end
+
+/-- a toy digest for the examples below -/
+def toyHH (cookie : Nat) (c : Nat) : Nat := cookie * 1000 + c
+
+/-! ### the transitive dial (`NodeConnectionMode::Transitive`, the node-list exchange) -/
+
+section
+variable {C D : Type} [DecidableEq D] (H : C → Nat → D)
+
+/-- (a peer's list makes this node dial only unknown peers, only after authentication, never itself)
+Whatever the state, the environment and the input: the session asks for a connection to `addr` only
+if it IS authenticated (before this very input), runs in `Transitive` mode, the input is a
+`NodeSessions` frame, and `addr` is the connection string of a listed peer `p` that is not this node
+(neither by name nor by connection string) and that matches no session `GetSessions` lists (neither
+its name nor its connection string equals a listed name or connection string). -/
+theorem transitive_dials_only_unknown_peers (cfg : Cfg C) (st : SState D) (env : Env) (i : In D) (addr : String)
+    (h : Effect.connect addr ∈ (handle H cfg st env i).2) :
+    st.auth.isOk = true ∧ cfg.transitive = true ∧
+    ∃ peers, i = .frame (.control (.nodeSessions peers)) ∧ ∃ p ∈ peers, p.2 = addr ∧
+      p.1 ≠ cfg.thisName ∧ p.2 ≠ cfg.thisConn ∧
+      ∀ ss, env.sessions = some ss → ∀ s ∈ ss, p.1 ≠ s.1 ∧ p.1 ≠ s.2 ∧ p.2 ≠ s.1 ∧ p.2 ≠ s.2 :=
+  handle_connect H cfg st env i addr h
+
+/-- non-vacuity: an authenticated transitive session told about {itself, a connected peer, a new
+peer} dials exactly the new one. -/
+example :
+    (handle toyHH { isServer := true, cookie := 7, thisName := "a@h", thisConn := "h:1", transitive := true, connId := 0 }
+      { auth := .server (.ok 0), name := some ("b@h", "h:2"), connId := 0, ready := .ready, proxies := [],
+        advertised := [], monitoring := true, stopped := false }
+      { check := .failed, elected := false, fresh := 0, localPids := [], groups := [], remotable := fun _ => false,
+        sessions := some [("b@h", "h:2")] }
+      (.frame (.control (.nodeSessions [("a@h", "x:1"), ("c@h", "h:1"), ("b@h", "h:9"), ("d@h", "h:2"), ("e@h", "h:3")])))).2
+    = [.notify .getSessions, .connect "h:3"] := by decide
+
+end
+
+/-! ### every way a session is created goes through the same gate (source facts, E-SRC)
+
+`client::connect`, `client::connect_enc` and `client::connect_external` do nothing but cast
+`ConnectionOpened{,External} { is_server: false }` to the `NodeServer`; the listener casts the same
+messages with `is_server: true`. Both arms of `NodeServer::handle` build the session with
+`NodeSession::new(node_id, is_server, self.cookie.clone(), …)` — the `Op.open` of
+`Model/MultiSession.lean`. The extractor reads this off the sources on every run. -/
+
+theorem client_connects_only_open_a_client_session :
+    Extracted.clientConnectCasts =
+      [("connect", "ConnectionOpened", "false"), ("connect_enc", "ConnectionOpened", "false"),
+       ("connect_external", "ConnectionOpenedExternal", "false")] := by decide
+
+theorem every_session_is_created_with_the_node_cookie :
+    Extracted.sessionCreationSites =
+      [("ConnectionOpened", "self.cookie.clone()", "is_server"),
+       ("ConnectionOpenedExternal", "self.cookie.clone()", "is_server")] := by decide
+
+/-! ### a retracted pid is no longer reachable -/
+
+section
+variable {C D : Type} [DecidableEq D] (H : C → Nat → D)
+
+/-- ("advertised to that peer" as a current fact) When a local actor exits, the monitoring session
+sends `Terminate` and drops the pid from its allow-list: right afterwards the pid is not advertised,
+and no cast or call to it is delivered — whatever the registries answer — until it is announced again. -/
+theorem retracted_pid_is_not_reachable (cfg : Cfg C) (st : SState D) (env env' : Env) (pid : Nat) (i : In D)
+    (hlive : st.stopped = false) (hm : st.monitoring = true) :
+    pid ∉ (handle H cfg st env (.pidTerminate pid true)).1.advertised ∧
+    Effect.send (.control (.terminate [pid])) ∈ (handle H cfg st env (.pidTerminate pid true)).2 ∧
+    ∀ k, Effect.deliverLocal pid k ∉ (handle H cfg (handle H cfg st env (.pidTerminate pid true)).1 env' i).2 := by
+  have h1 : pid ∉ (handle H cfg st env (.pidTerminate pid true)).1.advertised := by
+    simp [handle, hlive, hm]
+  refine ⟨h1, by simp [handle, hlive, hm], ?_⟩
+  intro k hk
+  exact h1 (delivery_only_to_advertised H cfg _ env' i pid k hk).1
+
+end
+
+/-! ### the witness: the full statement is FALSE of the code (finding F11) -/
+
+section
+open Multi
+
+/-- an injective digest: separates any two different cookies (`hsep` holds) -/
+def pairH (cookie : Nat) (c : Nat) : Nat × Nat := (cookie, c)
+
+def envR (fresh : Nat) : Env :=
+  { check := .noOther, elected := true, fresh := fresh, localPids := [3], groups := [],
+    remotable := fun p => p == 3, sessions := some [] }
+
+/-- The relay of `corpus/C17/e-lts-f11-reflection-inbound-outbound.ops`: session 0 is inbound
+(server-side), session 1 outbound (client-side); the node draws the challenges 5 (on 0) and 6 (on 1);
+the peer hands challenge 5 back on session 1, copies the node's answer `H 7 5` to session 0 and the
+node's `ChallengeAck` `H 7 6` to session 1; then casts to the advertised actor 3 on session 0. -/
+def reflectionOps : List (Op (Nat × Nat)) :=
+  [ .open true "v@h" "h:1" false 0,
+    .open false "v@h" "h:1" false 99,
+    .input 0 (envR 5) (.frame (.auth (.name ⟨"evil@h", "pc", 1⟩))),
+    .input 1 (envR 0) (.frame (.auth (.serverStatus 0))),
+    .input 1 (envR 6) (.frame (.auth (.serverChallenge "evil2@h" "pc2" 5))),
+    .input 0 (envR 0) (.frame (.auth (.clientChallenge 6 (pairH 7 5)))),
+    .input 1 (envR 0) (.frame (.auth (.serverAck (pairH 7 6)))),
+    .input 0 (envR 0) (.frame (.node (.cast 3))) ]
+
+/-- (negation on the witness) The unrestricted statement "a peer that does not know the cookie is
+never authenticated and causes no gated effect" is FALSE for the multi-session node, even for an
+injective digest function: the run `reflectionOps` is `legal` for a peer whose own cookie is 8 ≠ 7
+(every digest it sends was first sent by the node), `pairH` separates the cookies, and yet both
+sessions become authenticated and a cast is delivered to local actor 3. -/
+theorem reflection_authenticates_without_cookie :
+    (∀ c c', pairH 8 c' ≠ pairH 7 c) ∧
+    legal pairH 8 (Multi.empty 7 : Node Nat (Nat × Nat)) reflectionOps ∧
+    Effect.authenticated ∈ (Multi.run pairH (Multi.empty 7 : Node Nat (Nat × Nat)) reflectionOps).flatMap (·.2) ∧
+    Effect.deliverLocal 3 false ∈ (Multi.run pairH (Multi.empty 7 : Node Nat (Nat × Nat)) reflectionOps).flatMap (·.2) ∧
+    (nodeAfter pairH (Multi.empty 7 : Node Nat (Nat × Nat)) reflectionOps).sessions.map (·.2.auth.isOk) = [true, true] := by
+  refine ⟨by intro c c' h; simp [pairH] at h, ?_, by decide, by decide, by decide⟩
+  · refine ⟨trivial, trivial, ?_, ?_, ?_, ?_, ?_, ?_, trivial⟩
+    · intro d h; simp [digestOf] at h
+    · intro d h; simp [digestOf] at h
+    · intro d h; simp [digestOf] at h
+    · intro d h
+      simp only [digestOf, Option.some.injEq] at h
+      subst h
+      exact Or.inl (by decide)
+    · intro d h
+      simp only [digestOf, Option.some.injEq] at h
+      subst h
+      exact Or.inl (by decide)
+    · intro d h; simp [digestOf] at h
+
+/-- … and `GetSessions` lists both sessions of the cookie-less peer. -/
+example : getSessions (nodeAfter pairH (Multi.empty 7 : Node Nat (Nat × Nat)) reflectionOps) = [0, 1] := by decide
+
+/-- non-vacuity of `no_relay_never_authenticated_partial`: a run with two inbound sessions on which
+the peer replays and guesses; hypotheses hold, and the conclusion is about a non-trivial run. -/
+example :
+    noServerChallenge
+      ([ .open true "v@h" "h:1" false 0, .open true "v@h" "h:1" false 0,
+         .input 0 (envR 5) (.frame (.auth (.name ⟨"evil@h", "pc", 1⟩))),
+         .input 1 (envR 6) (.frame (.auth (.name ⟨"evil2@h", "pc", 1⟩))),
+         .input 0 (envR 0) (.frame (.auth (.clientChallenge 6 (pairH 8 5)))),
+         .input 1 (envR 0) (.frame (.node (.cast 3))) ] : List (Op (Nat × Nat))) = true := by decide
+
+end
+
+#print axioms C17.authentication_only_by_cookie_or_reflection
+#print axioms C17.no_relay_never_authenticated_partial
+#print axioms C17.empty_quiet
+#print axioms C17.retracted_pid_is_not_reachable
+#print axioms C17.transitive_dials_only_unknown_peers
+#print axioms C17.client_connects_only_open_a_client_session
+#print axioms C17.every_session_is_created_with_the_node_cookie
+#print axioms C17.auth_frame_after_authentication_is_ignored
+#print axioms C17.listed_sessions_completed_the_handshake
+#print axioms C17.reflection_authenticates_without_cookie
+
 /-! ## non-vacuity -/
 
 section
@@ -378,6 +639,55 @@ example :
      []] := by decide
 end
 
+
+
+/-! ### Translator tie (rs2lean): kernel-checked equivalence between the definitions that
+`extract/rs2lean.py` regenerates from the CURRENT Rust source on every run
+(`RactorModel/Generated/*.lean`) and the hand-written model functions the theorems above are
+about. A semantic change of the Rust function changes the generated text and these stop checking. -/
+
+section XlateTie
+open Generated.Auth GenAuth
+
+theorem generated_server_init_eq_model {D : Type} [DecidableEq D] (H : String → Nat → D) (fresh : Nat) :
+    absServer (ServerAuthenticationProcess.init H fresh) = (Auth.Server.init : Auth.Server D) := rfl
+
+theorem generated_client_init_eq_model {D : Type} [DecidableEq D] (H : String → Nat → D) (fresh : Nat) :
+    absClient (ClientAuthenticationProcess.init H fresh) = (Auth.Client.init : Auth.Client D) := rfl
+
+theorem generated_server_start_challenge_eq_model {D : Type} [DecidableEq D] (H : String → Nat → D) (cookie : String) (fresh : Nat)
+    (s : ServerAuthenticationProcess D) :
+    absServer (ServerAuthenticationProcess.start_challenge H fresh s cookie)
+      = Auth.Server.startChallenge H cookie fresh (absServer s) := by
+  cases s <;> rfl
+
+theorem generated_server_next_eq_model {D : Type} [DecidableEq D] (H : String → Nat → D) (cookie : String) (fresh : Nat)
+    (s : ServerAuthenticationProcess D) (m : AuthenticationMessage D) :
+    absServer (ServerAuthenticationProcess.next H fresh s m cookie)
+      = Auth.Server.next H cookie fresh (absServer s) (absMsg m) := by
+  rcases m with ⟨_ | m⟩
+  · cases s <;> rfl
+  · cases m <;> cases s <;>
+      simp [ServerAuthenticationProcess.next, ServerAuthenticationProcess.start_challenge, absMsg, apply_ite absServer, Auth.Server.next, Auth.Server.startChallenge] <;>
+      simp [absServer, absName] <;> (cases ‹ClientStatus D› with | mk b => cases b <;> simp)
+
+theorem generated_client_next_eq_model {D : Type} [DecidableEq D] (H : String → Nat → D) (cookie : String) (fresh : Nat)
+    (c : ClientAuthenticationProcess D) (m : AuthenticationMessage D) :
+    absClient (ClientAuthenticationProcess.next H fresh c m cookie)
+      = Auth.Client.next H cookie fresh (absClient c) (absMsg m) := by
+  rcases m with ⟨_ | m⟩
+  · cases c <;> rfl
+  · cases m <;> cases c <;>
+      simp [ClientAuthenticationProcess.next, absMsg, apply_ite absClient, Auth.Client.next] <;>
+      simp [absClient]
+
+/-- the abstraction functions are onto the model types: the equivalences above cover every model
+state and message (not only images of some generated values). -/
+theorem generated_auth_abstraction_onto {D : Type} (s : Auth.Server D) (c : Auth.Client D) (m : Auth.Msg D) :
+    (∃ s', absServer s' = s) ∧ (∃ c', absClient c' = c) ∧ (∃ m', absMsg m' = m) :=
+  ⟨⟨_, absServer_concServer s⟩, ⟨_, absClient_concClient c⟩, ⟨_, absMsg_concMsg m⟩⟩
+end XlateTie
+
 end C17
 
 #print axioms C17.fsm_close_absorbing
@@ -399,3 +709,10 @@ end C17
 #print axioms C17.delivery_only_to_advertised
 #print axioms C17.advertised_were_announced
 #print axioms C17.unauthenticated_session_is_inert
+-- rs2lean tie
+#print axioms C17.generated_server_init_eq_model
+#print axioms C17.generated_client_init_eq_model
+#print axioms C17.generated_server_start_challenge_eq_model
+#print axioms C17.generated_server_next_eq_model
+#print axioms C17.generated_client_next_eq_model
+#print axioms C17.generated_auth_abstraction_onto
